@@ -128,6 +128,19 @@ func c18Parse(c *eng.Ctx, r *eng.Report) {
 		other = c.Pos(re.Ret.Pos()) + " returns " + eng.Desc(v)
 	}
 	r.Check(other == "" && nret >= 1, "O0", "strToBigInt:single-path", pos, "every successful return is the result of the reviewed pipeline (or 0 for the empty string)", "strToBigInt has a successful return that does not come out of the ParseFloat→Mul→Int pipeline: "+other+" — a second parser with its own grammar (radix prefixes, digit separators, octal for a leading zero) or its own rounding, to which obligations O1–O3 do not apply")
+	// …and it is total on what ParseFloat accepts: the only error strToBigInt returns is ParseFloat's own
+	otherErr := ""
+	for _, re := range eng.Returns(fn) {
+		if len(re.Ret.Results) < 2 || eng.IsNilConst(re.Incoming(1)) {
+			continue
+		}
+		e := re.Incoming(1)
+		ex, isE := e.(*ssa.Extract)
+		if !isE || ex.Tuple != ssa.Value(pf[0]) {
+			otherErr = c.Pos(re.Ret.Pos()) + " returns " + eng.Desc(e)
+		}
+	}
+	r.Check(otherErr == "", "O0", "strToBigInt:only-parse-errors", pos, "the only error returned is the one big.ParseFloat reported", "strToBigInt rejects input that big.ParseFloat accepted: "+otherErr+" — a magnitude or format guard of its own; obligations O1–O3 hold for every amount below 10^78 with 18 decimals, so any such guard can only cut valid values off (e.g. a bound of 2^196 on the unscaled amount rejects everything from 2^196·10^18 to 2^256−1, and StrToBigInt(BigIntToStr(v)) fails for those v)")
 	// O1
 	nmax := new(big.Int).Exp(big.NewInt(10), big.NewInt(78+18), nil)
 	need := int64(nmax.BitLen() + 3)
